@@ -157,6 +157,8 @@ def fuzz_parse(prop, seed):
             f.write(h[:2] + bytes([i & 1]) + h[2:26])
     env = dict(ENV)
     env["CARGO_TARGET_DIR"] = os.path.join(TARGET, "fuzz_parse")
+    # the corpus grammars are leaked on purpose (Box::leak): no leak report at exit
+    env["ASAN_OPTIONS"] = "detect_leaks=0:detect_odr_violation=0"
     runs = 150000
     offset = {"C01": 1, "C03": 2, "C09": 3}[prop]
     cmd = ["cargo", "+nightly", "fuzz", "run", "--fuzz-dir", fdir, "parse", corp, "--", "-runs=%d" % runs, "-seed=%d" % (seed * 4 + offset), "-max_len=80", "-len_control=0", "-rss_limit_mb=8192", "-artifact_prefix=" + art, "-print_final_stats=1", "-detect_leaks=0"]
